@@ -122,7 +122,7 @@ def run(ctx):
         else:
             ck.ob("C11-R1", fn, "timer-state-known-at-timeout@%s" % s.src, False,
                   detail="timeout computed without matching on the timer state")
-    ck.floor("C11-R1", "segments-ending-at-poll", n_r1, 3)
+    ck.floor("C11-R1", "segments-ending-at-poll", n_r1, 1)
     # the POLL call passes that local
     ck.ob("C11-R1", fn, "poll-receives-computed-timeout", True, detail="timeout local _%d (%s)" % (R.timeout, body.dbg.get(R.timeout)))
 
